@@ -48,6 +48,29 @@ func (s *step) fill() error {
 // genHistory: single- and multi-point batches, overwrites of existing keys placed
 // preferably right after a flush, 1..2N-1 single-point writes between flushes (uneven WAL
 // partitions), drop and re-creation of a measurement.
+// genChurnHistory: every batch creates new series and is followed by a flush, so that the
+// series index writes a file part per flush and merges its parts in the background; the
+// commits of those parts (tmp -> transaction file -> rename) are the crash positions the
+// pattern cases aim at.
+func genChurnHistory(r *rand.Rand, rounds int) []step {
+	var h []step
+	val := int64(0)
+	for round := 0; round < rounds; round++ {
+		var pts []model.Point
+		for i := 0; i < 6; i++ {
+			val++
+			pts = append(pts, model.Point{Mst: "churn", Tags: map[string]string{"host": fmt.Sprintf("h%02d_%d", round, i), "dc": fmt.Sprintf("d%d", r.IntN(3))},
+				T: kit.BaseTime + int64(round)*1_000_000_000 + int64(i), Fields: map[string]model.Value{"v": model.Int(val)}})
+		}
+		st := step{Op: "write", pts: pts}
+		for _, p := range pts {
+			st.Points = append(st.Points, p.LP())
+		}
+		h = append(h, st, step{Op: "flush"})
+	}
+	return h
+}
+
 func genHistory(r *rand.Rand, u *kit.Universe, nops, nParts int, manyFlushes bool) []step {
 	var h []step
 	add := func(op string, pts []model.Point, mst string) {
@@ -145,6 +168,10 @@ func pathClass(p string) string {
 		return "tssp-init"
 	case strings.Contains(p, ".tssp"):
 		return "tssp"
+	case strings.Contains(p, "mergeset/txn"):
+		return "index-txn"
+	case strings.Contains(p, "mergeset/tmp"):
+		return "index-tmp"
 	case strings.Contains(p, "/index/") || strings.Contains(p, "mergeset"):
 		return "index"
 	case strings.Contains(p, "compact_log") || strings.Contains(p, ".log"):
@@ -185,6 +212,12 @@ type crashCase struct {
 	K2      int64  `json:"k2,omitempty"`          // second crash: k-th mutation of the recovery run
 	ExtStep int    `json:"ext_step,omitempty"`    // external SIGKILL issued while this step is in flight (thorough)
 	Window  int    `json:"window_step,omitempty"` // flush step held open after its WAL switch (hook point) while the following writes are acknowledged, then SIGKILL
+	// pattern crash: die before the PatN-th mutation of kind PatKind whose path contains
+	// PatPath (background work such as index-part merges has no fixed position k)
+	PatKind string `json:"pattern_kind,omitempty"`
+	PatPath string `json:"pattern_path,omitempty"`
+	PatNot  string `json:"pattern_not,omitempty"`
+	PatN    int64  `json:"pattern_n,omitempty"`
 	Why     string `json:"why,omitempty"`
 }
 
@@ -481,6 +514,12 @@ func (rn *runner) runCase(hidx int, h []step, cc crashCase, worker, cpus int, ca
 			return
 		}
 	}
+	if cc.PatN > 0 {
+		if err := s.FsArmPattern(cc.PatKind, cc.PatPath, cc.PatNot, cc.PatN); err != nil {
+			c.Broken("arm pattern: %v", err)
+			return
+		}
+	}
 	died := -1
 	windowStep := -1
 	for i := range h {
@@ -555,6 +594,12 @@ func (rn *runner) runCase(hidx int, h []step, cc crashCase, worker, cpus int, ca
 				c.Inconclusive("series-never-visible", 1)
 				return
 			}
+		}
+	}
+	if died < 0 && cc.PatN > 0 {
+		// background work: give it a moment after the last step
+		for t := 0; t < 60 && s.Alive(); t++ {
+			time.Sleep(50 * time.Millisecond)
 		}
 	}
 	if died < 0 {
@@ -747,7 +792,7 @@ func tailFrom(s string, n int) string {
 }
 
 // chooseCases picks crash positions from the dry-run trace.
-func chooseCases(c *vf.Ctx, r *rand.Rand, h []step, trace []mutation, after []int64, base int64, exhaustive bool) []crashCase {
+func chooseCases(c *vf.Ctx, r *rand.Rand, h []step, trace []mutation, after []int64, base int64, exhaustive bool, patN int) []crashCase {
 	stepOf := func(n int64) int {
 		for i, a := range after {
 			if n <= a {
@@ -783,13 +828,24 @@ func chooseCases(c *vf.Ctx, r *rand.Rand, h []step, trace []mutation, after []in
 		if si < len(h) {
 			kind = h[si].Op
 		}
-		key := kind + "|" + m.Kind + "|" + pathClass(m.Path)
+		pc := pathClass(m.Path)
+		if strings.HasPrefix(pc, "index-") {
+			pc = "index" // the commit steps of index parts are targeted by pattern below
+		}
+		key := kind + "|" + m.Kind + "|" + pc
 		if !seen[key] {
 			seen[key] = true
 			cases = append(cases, crashCase{K: m.N - base, Why: "first " + key})
 		} else {
 			rest = append(rest, m)
 		}
+	}
+	// the series index commits its parts (flushes and background merges of parts) through
+	// tmp -> transaction file -> rename; background merges have no fixed position in the
+	// trace, so they are targeted by pattern: die before the n-th rename under mergeset/
+	for n := int64(1); n <= int64(patN); n++ {
+		// the rename that publishes a part: from mergeset/tmp/<id>, not the metadata file inside it
+		cases = append(cases, crashCase{PatKind: "rename", PatPath: "/mergeset/tmp/", PatNot: "metadata.json", PatN: n, Why: "index part commit"})
 	}
 	// seeded extras, biased to WAL writes (torn tails) and flush protocol steps
 	r.Shuffle(len(rest), func(i, j int) { rest[i], rest[j] = rest[j], rest[i] })
@@ -838,7 +894,8 @@ func main() {
 	var wg sync.WaitGroup
 	var mu sync.Mutex
 	totalCases := 0
-	for hi := 0; hi < nh; hi++ {
+	for hi := 0; hi <= nh; hi++ {
+		churn := hi == nh // the last one: series churn, crash positions by pattern only
 		cpus := cpuChoices[hi%len(cpuChoices)]
 		nparts := 16
 		if cpus > 0 {
@@ -848,6 +905,9 @@ func main() {
 		u := kit.NewUniverse(2, 4, 8)
 		many := hi == nh-1 || (c.Thorough() && hi%4 == 3)
 		h := genHistory(r, u, c.Pick(36, 60), nparts, many)
+		if churn {
+			h = genChurnHistory(r, c.Pick(10, 16))
+		}
 		w := <-sem
 		trace, after, base, ok := rn.dryRun(hi, h, w, cpus)
 		sem <- w
@@ -856,7 +916,30 @@ func main() {
 		}
 		c.Count("dry-run-mutations", int64(len(trace)))
 		exhaustive := c.Thorough() && hi < 2
-		cases := chooseCases(c, r, h, trace, after, base, exhaustive)
+		// index-part commits (renames under mergeset/) seen in the dry run bound the pattern cases
+		patN := 0
+		for _, m := range trace {
+			if m.N > base && m.Kind == "rename" && strings.Contains(m.Path, "/mergeset/tmp/") && !strings.Contains(m.Path, "metadata.json") {
+				patN++
+			}
+		}
+		patN += 2 // background merges may add a few
+		if !churn {
+			patN = 0
+		} else if patN > c.Pick(16, 40) {
+			patN = c.Pick(16, 40)
+		}
+		cases := chooseCases(c, r, h, trace, after, base, exhaustive && !churn, patN)
+		if churn {
+			// only the pattern cases (and a few ordinary ones) for this history
+			var keep []crashCase
+			for _, cc := range cases {
+				if cc.PatN > 0 || len(keep) < 4 {
+					keep = append(keep, cc)
+				}
+			}
+			cases = keep
+		}
 		// second-order crashes: recovery runs armed at seeded positions
 		nd := c.Pick(2, 8)
 		for i := 0; i < nd && len(cases) > 0; i++ {
